@@ -149,6 +149,13 @@ def observe(U, B58, s: bytes, want, reason: str, f: Fails, variant=""):
             what = "false-on-valid" if exp_ia else "true-on-invalid"
             cls = (valid_class(want) if exp_seg else "base58check") if exp_ia else reason
             f.add(f"is_addr/{what}/{cls}{variant}", f"{s!r} is_segwit_addr={seg!r} base58check={b58_valid}")
+    # the raising sibling of is_addr: True for an address, an exception for anything else
+    aa = attempt(U.assert_addr, s)
+    aa_ok = not raised(aa) and aa is not False and aa is not None
+    if aa_ok != exp_ia and (ia is None or ia == exp_ia):  # (a wrong is_addr verdict is reported above, once)
+        what = "rejects-valid" if exp_ia else "accepts-invalid"
+        cls = (valid_class(want) if exp_seg else "base58check") if exp_ia else reason
+        f.add(f"assert_addr/{what}/{cls}{variant}", f"{s!r}: {aa!r}")
     return accepted
 
 
